@@ -1110,4 +1110,33 @@ theorem runY_refines (dry isTxKind : Nat → Bool) (adm : Job → Path → Prop)
     obtain ⟨E2, h2, hi2⟩ := stepY_inv dry isTxKind adm hadm y1 y2 evs hstep E1 hi1 (hchain _ _ hrun)
     exact ⟨E2, by rw [runOn_append, h1]; exact h2, hi2⟩
 
+-- ------------------------------------------------------------------------------------------------ admission is monotone
+
+theorem step_mono {adm adm' : Job → Path → Prop} (hm : ∀ j p, adm j p → adm' j p) {st st' : State} {evs : List Ev}
+    (h : Step adm st evs st') : Step adm' st evs st' := by
+  cases h with
+  | item pre post j rg dn x rest hp hen => exact Step.item _ pre post j rg dn x rest hp hen
+  | gate n ok h0 hn => exact Step.gate _ n ok h0 hn
+  | crash => exact Step.crash _
+  | arrive j p hf ha => exact Step.arrive _ j p hf (hm j p ha)
+
+theorem run_mono {adm adm' : Job → Path → Prop} (hm : ∀ j p, adm j p → adm' j p) {st st' : State} {tr : List Ev}
+    (h : Run adm st tr st') : Run adm' st tr st' := by
+  induction h with
+  | nil => exact Run.nil _
+  | cons st1 st2 evs tr _ hs ih => exact Run.cons _ _ _ _ _ ih (step_mono hm hs)
+
+/-- every event of an accepted sequence was accepted in the state its predecessors led to -/
+theorem runOn_split {S : Type} (step : S → Ev → Except String S) (s s' : S) (pre post : List Ev) (ev : Ev)
+    (h : runOn step s (pre ++ ev :: post) = .ok s') :
+    ∃ s1 s2, runOn step s pre = .ok s1 ∧ step s1 ev = .ok s2 ∧ runOn step s2 post = .ok s' := by
+  rw [runOn_append] at h
+  cases h1 : runOn step s pre with
+  | error m => simp [h1] at h
+  | ok s1 =>
+    simp only [h1, runOn] at h
+    cases h2 : step s1 ev with
+    | error m => simp [h2] at h
+    | ok s2 => exact ⟨s1, s2, rfl, h2, by simpa [h2] using h⟩
+
 end Engine.Skel.EventsRef
